@@ -163,7 +163,7 @@ CLAIMS = {
         text="19 theorems: a trace accepted by the monitor cannot change any argument storage for ANY written contents "
              "(induction over traces of any length), rejection is never spurious, accepted iff no execution changes an argument; "
              "with-argument accessors of Grid/Cube/Image(Batch) are pure, deepcopy is independent in both directions; for "
-             "transforms the model predicts exactly which receiver slots an accessor changes (five defects repaired by fix: commits; the three remaining refuted clauses - shared exp module / shared composite children - are known findings). "
+             "transforms the model predicts exactly which receiver slots an accessor changes (six defects repaired by fix: commits; the two remaining refuted clauses - composite children shared with a shallow copy - are known findings). "
              "Every public name of core.functional (113) and losses.functional (40) is traced on enumerated call paths "
              "(1413 paths); the proof is per enumerated path, not about all paths of the Python source (partial).",
         ref="5 C15"),
